@@ -124,6 +124,7 @@ pub trait Read: Sized {
 //@@ end
 
 //@@ fn file=serde_amqp/src/read/mod.rs impl=`~Read<'de>:private::Sealed` name=read_bytes
+//@@ attr #[verifier::loop_isolation(false)]
 //@@ shape loops=while
 //@@ attr #[verifier::exec_allows_no_decreases_clause]
 //@@ qmark
